@@ -170,6 +170,7 @@ def run_job(job):
             res["runs"] += 1
             res["steps"] += r.steps
             res["switches"] += int(r.summary.get("switches", 0))
+            res.setdefault("trace", []).append((res["runs"], r.status, r.steps, r.trace_hash))
             if int(r.summary.get("switches", 0)) > 0:
                 res["distinct"].append(f"{index}:{r.trace_hash}:{sc['file']}:{sc['action']}")
             desc = {"family": "mut", "job": {"prop": "C20", "seed": seed, "index": index,
